@@ -5,7 +5,7 @@
    stable under extension and minimal (httparse::parse_chunk_size is a parameter; the executable
    model's parser is proved to meet the hypotheses). *)
 From Coq Require Import List NArith Bool Arith.
-From TT Require Import Lib.BytesL Model.Forwarded Generated.ForwardedFacts Proofs.ForwardedProofs.
+From TT Require Import Lib.BytesL Model.Forwarded Generated.ForwardedFacts Proofs.ForwardedProofs Model.H3Stream Proofs.H3StreamProofs.
 Import ListNotations.
 Local Open Scope nat_scope.
 
@@ -102,6 +102,21 @@ Proof.
   exact psize_c_complete_min.
 Qed.
 Print Assumptions model_chunk_size_parser_ok.
+
+(* HTTP/3: whatever the order in which the client's end of stream (FIN) and the pieces of the response
+   occur, every piece of the response reaches the client, in order; only a reset loses them *)
+Theorem h3_response_survives_the_end_of_the_request :
+  forall evs, ~ In ClientReset evs ->
+    delivered (h3run H3_REQUEST_END_KEEPS_RESPONSE_DIRECTION evs) = responses evs
+    /\ lost (h3run H3_REQUEST_END_KEEPS_RESPONSE_DIRECTION evs) = [].
+Proof. exact every_response_piece_is_delivered_proof. Qed.
+Print Assumptions h3_response_survives_the_end_of_the_request.
+
+(* as found: a FIN that arrives before the response loses it *)
+Example ex_fin_first_loses_the_response :
+  lost (h3run false [ClientFin; Respond 200; Respond 1]) = [200%N; 1%N]
+  /\ delivered (h3run true [ClientFin; Respond 200; Respond 1]) = [200%N; 1%N].
+Proof. split; reflexivity. Qed.
 
 Theorem code_facts :
   FWD_CHUNK_DATA_COUNTS_ACCEPTED_AND_KEEPS_STATE = true /\ FWD_NON_ENCODED_COUNTS_ACCEPTED = true
